@@ -106,6 +106,8 @@ def _scalar(draw, kinds=PLAIN_SCALARS, nonzero=False):
         v = draw(st.sampled_from([1, -1, 2, -2, 3, -3, 5, 0] if not nonzero else [1, -1, 2, -2, 3, -3, 5]))
         return {"k": k, "v": [v, 0]}
     e = draw(st.integers(-3, 2))
+    if draw(st.integers(0, 11)) == 0:
+        e = draw(st.sampled_from([-9, -12]))  # tiny but non-zero factors: only an exactly zero term may be dropped silently
     m = draw(st.sampled_from(_MANT))
     if not nonzero and draw(st.integers(0, 15)) == 0:
         m = 0.0
